@@ -214,6 +214,11 @@ where
                         .unwrap()
                         .iter()
                         .flat_map(|(_, other)| {
+                            #[cfg(similari_verif)]
+                            crate::verif_hook::at(
+                                "w.dist.scan",
+                                &[Arc::as_ptr(&stores) as usize as u64, store_id as u64],
+                            );
                             if track.track_id == other.track_id {
                                 return None;
                             }
